@@ -15,5 +15,5 @@ CONSTANTS
   DevGCDropsEdge = FALSE
   DevNoReloadOpenBatch = FALSE
   DevKeyByBlockTs = FALSE
-INVARIANTS AbsIter AbsLastUpdated AbsAgree ImplRevPrefix ImplKeyBrackets
+INVARIANTS ImplAll
 CHECK_DEADLOCK FALSE
